@@ -102,7 +102,6 @@ func (ex *Exec) loopHead(l *Loop, b *ssa.BasicBlock, edges []edge, reachIn strin
 		for k, inv := range spec.Invariants {
 			t := ex.evalAtHeader(l, overlay, st, inv.Expr)
 			vc.oblige(fmt.Sprintf("loop%d.inv[%d].init", l.Ordinal, k+1), inv.Tag, b.Instrs[0].Pos(), reachIn, t, "invariant holds on entry: "+inv.Text)
-			vc.assume(sImp(reachIn, t))
 		}
 	}
 	if ex.parent == nil && !vc.discover {
@@ -143,6 +142,11 @@ func (ex *Exec) loopHead(l *Loop, b *ssa.BasicBlock, edges []edge, reachIn strin
 		if isRangeIndexPhi(phi) {
 			// the compiler-generated index of a range loop starts at -1 and only ever grows by one
 			vc.assume(sImp(reach, "(>= "+n+" (- 1))"))
+			// ... and is compared against a length computed before the loop: index+1 <= max(len,0)
+			if lim := rangeLimit(phi, l); lim != nil {
+				lt := ex.val(lim).T
+				vc.assume(sImp(reach, sOr("(= "+n+" (- 1))", "(< "+n+" "+lt+")")))
+			}
 		}
 	}
 	// 3. assume invariants
@@ -189,9 +193,11 @@ func (ex *Exec) loopBack(l *Loop, from, header *ssa.BasicBlock) {
 		// ghost updates, evaluated at the end of the body on this path
 		ex.curBlock = from
 		ex.curState = st
+		ex.ghostLoop = l
 		for _, g := range spec.Ghost {
 			ex.applyGhostUpdate(g, st, &progPoint{block: from, idx: len(from.Instrs)}, guard)
 		}
+		ex.ghostLoop = nil
 		overlay := ex.scratchHeader(l, phiVals, st)
 		pos := header.Instrs[0].Pos()
 		for k, inv := range spec.Invariants {
@@ -201,7 +207,6 @@ func (ex *Exec) loopBack(l *Loop, from, header *ssa.BasicBlock) {
 				name = fmt.Sprintf("loop%d.inv[%d].preserved@b%d", l.Ordinal, k+1, backOrdinal(header, from))
 			}
 			vc.oblige(name, inv.Tag, pos, guard, t, "invariant preserved: "+inv.Text)
-			vc.assume(sImp(guard, t))
 		}
 	}
 	if ex.parent == nil {
@@ -237,6 +242,28 @@ func isRangeIndexPhi(phi *ssa.Phi) bool {
 		}
 	}
 	return true
+}
+
+// rangeLimit: for the compiler-generated pattern  t = phi+1; if t < lim  with lim defined outside the loop.
+func rangeLimit(phi *ssa.Phi, l *Loop) ssa.Value {
+	for _, ins := range l.Header.Instrs {
+		cmp, ok := ins.(*ssa.BinOp)
+		if !ok || cmp.Op.String() != "<" {
+			continue
+		}
+		inc, ok := cmp.X.(*ssa.BinOp)
+		if !ok || inc.X != ssa.Value(phi) || inc.Op.String() != "+" {
+			continue
+		}
+		if li, ok := cmp.Y.(ssa.Instruction); ok && li.Block() != nil && l.Blocks[li.Block()] {
+			continue
+		}
+		// the header must branch on this comparison
+		if ifi, ok := l.Header.Instrs[len(l.Header.Instrs)-1].(*ssa.If); ok && ifi.Cond == ssa.Value(cmp) {
+			return cmp.Y
+		}
+	}
+	return nil
 }
 
 func backEdgesOf(h *ssa.BasicBlock) []*ssa.BasicBlock {
